@@ -1,14 +1,15 @@
 CONSTANTS
   Driver = "iour"
-  Shapes <- ShapesCtl
+  Shapes <- ShapesQuick
   MaxSteps = 7
   MaxCancel = 2
   MaxFeed = 2
-  Eager = FALSE
+  Eager = TRUE
   FixListen = FALSE
   FixFFStream = FALSE
   MutPersDropsCancel = FALSE
   MutNoDropCancel = FALSE
   MutNoWaker = FALSE
-SPECIFICATION Spec
-INVARIANTS NoPanic
+SPECIFICATION GSpec
+INVARIANTS Emit
+VIEW ViewEdge
